@@ -584,10 +584,10 @@ pub fn def() -> CheckDef {
     CheckDef {
         id: "C20",
         rule: "differential testing SDK (rust-sdk/core, also the WASM core of ts-sdk) vs program at function level.  swap_sequences: a generated pool (tick spacing, price, \
-               fee rates, positions turned into tick contents, optional valid adaptive-fee constants) and a sequence of swaps with increasing timestamps; before \
+               fee rates, positions incl. the full range turned into tick contents, start prices anywhere incl. next to both protocol tick bounds, optional valid adaptive-fee constants) and a sequence of swaps with increasing timestamps; before \
                each swap the SAME state is given to the program's swap() and to the SDK's compute_swap(); program Ok => SDK Ok with equal amounts, total fee and \
                fee-rate range; program Err => SDK may quote only for a partial exact-out fill (6057) or running off the arrays (6038); an SDK panic where the \
-               program succeeds is a failure; slippage-adjusted bounds on the safe side; the state then advances with the program's result, so adaptive variables \
+               program succeeds is a failure, and a panic of the program is a refusal (so an SDK quote for it is a failure too); slippage-adjusted bounds on the safe side; the state then advances with the program's result, so adaptive variables \
                are only ever reached, never fabricated.  math_functions: amount deltas, next-price functions, liquidity token estimates and price->tick on \
                generated inputs: equal where the program accepts, SDK error where the program rejects as overflowing.  ticks_exhaustive: tick->price for all \
                887,273 ticks.  Non-trivial = sequence with >=1 agreed swap crossing an initialized tick / every math case.",
